@@ -435,6 +435,35 @@ func dquoteRules(c *Ctx, r *Report) {
 // that ignoreWhitespace skips what JSON calls white space: space, tab, line feed and carriage return. Accepted
 // are the library trimmers with unicode.IsSpace / strings.TrimSpace / a constant cutset, or a hand-written scan
 // whose byte tests and lookup table (a package-level [N]bool initialised with constant indices) cover the four.
+// spacePredicate: is f unicode.IsSpace (or a function that returns exactly unicode.IsSpace of its parameter), or
+// the negation of it?
+func spacePredicate(f *ssa.Function) (isSpace, isNotSpace bool) {
+	if f.String() == "unicode.IsSpace" {
+		return true, false
+	}
+	if len(f.Blocks) != 1 || len(f.Params) != 1 {
+		return false, false
+	}
+	rets := Returns(f)
+	if len(rets) != 1 || len(rets[0].Results) != 1 {
+		return false, false
+	}
+	v := rets[0].Results[0]
+	neg := false
+	if u, ok := v.(*ssa.UnOp); ok && u.Op == token.NOT {
+		neg = true
+		v = u.X
+	}
+	call, ok := v.(*ssa.Call)
+	if !ok || call.Common().StaticCallee() == nil || call.Common().StaticCallee().String() != "unicode.IsSpace" {
+		return false, false
+	}
+	if len(call.Common().Args) != 1 || call.Common().Args[0] != ssa.Value(f.Params[0]) {
+		return false, false
+	}
+	return !neg, neg
+}
+
 func whitespaceSetRule(c *Ctx, r *Report) {
 	r.Rule("R17h", "ignoreWhitespace skips the four JSON white space characters (space, tab, line feed, carriage return)", 1)
 	iw := c.Method("parse", "flagParser", "ignoreWhitespace")
@@ -476,10 +505,14 @@ func whitespaceSetRule(c *Ctx, r *Report) {
 				case "strings.TrimSpace":
 					all = all || whole
 				case "strings.TrimLeftFunc", "strings.TrimFunc", "strings.IndexFunc":
+					// trimmers take the white space predicate, the index search its negation
 					for _, a := range x.Common().Args {
 						for _, s := range Sources(a) {
-							if f, ok := s.(*ssa.Function); ok && f.String() == "unicode.IsSpace" {
-								all = all || whole
+							if f, ok := s.(*ssa.Function); ok {
+								isSp, isNot := spacePredicate(f)
+								if g.String() == "strings.IndexFunc" && isNot || g.String() != "strings.IndexFunc" && isSp {
+									all = all || whole
+								}
 							}
 						}
 					}
